@@ -231,10 +231,17 @@ def reader_core(e):
     if r1[0] != 'call' or not re.search(r'str.*::replace$', r1[1]):
         return None, 'the thousands separator is not removed before the decimal separator is replaced (%s)' % render(r1)[:100]
     b_from, b_to = render(r1[2][1]), render(r1[2][2])
-    if 'config.decimal_seperator' not in a_from or a_to != '"."':
+
+    def every_branch(x, want):
+        """the separator is the configured one on every path (a merged value: each of its arms)"""
+        x = strip(x)
+        if x[0] == 'phi':
+            return all(every_branch(br, want) for br in x[2] if br[0] != 'loop')
+        return want in render(x)
+    if not every_branch(r2[2][1], 'config.decimal_seperator') or a_to != '"."':
         return None, 'outer replace is (%s -> %s), expected (decimal separator -> ".")' % (a_from[:60], a_to)
-    if 'config.thousand_separator' not in b_from or b_to != '""':
-        return None, 'inner replace is (%s -> %s), expected (thousands separator -> "")' % (b_from[:60], b_to)
+    if not every_branch(r1[2][1], 'config.thousand_separator') or b_to != '""':
+        return None, 'inner replace is (%s -> %s), expected (the configured thousands separator -> "" on every path)' % (b_from[:90], b_to)
     g = _unwrap_result(r1[2][0])
     if g[0] == 'call' and re.search(r'Captures::<.*>::name$|Captures::name$', g[1]):
         name = model.const_str(g[2][1])
@@ -548,3 +555,44 @@ def canon_field_reads(e):
                         return r
         return n
     return rebuild(e, f)
+
+
+# ---------------------------------------------------------------------------------------------
+# Literal readers are stateless between captures: what one literal denotes never depends on the literal read before it.
+READERS = [(r'regex_tokinizer::number::number_regex_parser$', 'Number'), (r'regex_tokinizer::money::money_regex_parser$', 'Money'),
+           (r'regex_tokinizer::percent::percent_regex_parser$', 'Percent'), (r'regex_tokinizer::time::time_regex_parser$', 'Time')]
+
+
+def reader_stateless(ctx, rid, only=None):
+    """the payload of a literal token (its value, its currency, its instant and zone) and the decisions that select it are
+    terms of the current capture only: the gated use-def term contains no loop-carried variable. A variable hoisted out of the
+    capture loop ("computed once") that an arm assigns makes the second literal of a line inherit from the first (`2k + 3`)."""
+    ctx.rule(rid, 'literal readers carry no state from one capture to the next', floor=1)
+    for rx, kind in READERS:
+        if only and kind not in only:
+            continue
+        b = ctx.facts.one(rx)
+        ctx.fn(b)
+        aggs = [s_ for i in b.normal_blocks for s_ in b.blocks[i]['stmts'] if s_['k'] == 'assign' and s_['rv'] == 'aggr' and s_['adt'] == 'types::TokenType::' + kind]
+        if not aggs:
+            raise AnchorLost('%s: no TokenType::%s construction found' % (fn_key(b.path), kind))
+        for s_ in aggs:
+            carried = set()
+            for o in s_['ops']:
+                e = b.expr(o)
+                for x in walk(e):
+                    if x[0] == 'loop':
+                        carried.add(render(x))
+                try:
+                    for _a, conds in alternatives(b, e):
+                        for d, _v in conds:
+                            for x in walk(d):
+                                if x[0] == 'loop':
+                                    carried.add(render(x))
+                except Exception:
+                    pass
+            if carried:
+                ctx.finding(rid, '%s/carried-state/%s' % (fn_key(b.path), '+'.join(sorted(carried))[:60]),
+                            'the %s token built by %s depends on %s, a variable that keeps its value from the previous capture of the line: a literal can inherit from the literal read before it' % (kind, fn_key(b.path), ', '.join(sorted(carried))), site=s_['loc'])
+            else:
+                ctx.ok(rid, '%s: the %s token is a term of the current capture only' % (fn_key(b.path), kind), 'use-def', site=s_['loc'])
